@@ -20,13 +20,13 @@ CHECKS = {
     "C04": (A, "4.4", "differential monitor (same seeded time-scripted scenario with and without spoofed requests; victim-visible observables compared) + offline history monitors for routing by tunnel address, slot takeover and expiry over adversarial multi-session histories",
             "held on every executed pair and history: every request naming the victim's userid from a foreign address refused and without effect on the packets delivered to the victim, its session row, its transfer state and the server's tun writes; packets for address A delivered only to the logged-in holder of A; no VACK for a slot with an accepted message < 60 s earlier; no service after > 60 s of silence",
             "observables are compared at a granularity insensitive to when a datagram wakes the server inside its 20 ms send-real-soon window; behaviour at exactly 60 s is not asserted; a correct raw login from another address legitimately rebinds"),
-    "C05": (A, "4.5", "ASan/UBSan inside the real iodined + watchdog + health probe under structure-aware hostile datagram generators",
-            "no sanitizer report, exit or stall on any executed hostile input sequence (7 generator classes x 10 pre-attack session states x server options), and a session established before the attack still moved a frame each way afterwards",
+    "C05": (A, "4.5", "ASan/UBSan inside the real iodined + watchdog + health probe under structure-aware hostile datagram generators, never-ending fragment streams, exhausted slot pool and failing tun reads",
+            "no sanitizer report, exit or stall on any executed hostile input sequence (8 generator classes x 11 pre-attack session states x server options), and a session established before the attack still moved a frame each way afterwards",
             "a clean sanitizer run is not memory safety (intra-object / non-adjacent overflows invisible); only executed paths are judged; GCC-defined signed '<<' (shift-base) is not counted as UB"),
     "C08": (B, "4.8", "real client name builders -> strict name checker -> real server dispatcher in one process (statics reached by #include), over the full (L, domain length, codec) grid",
             "held on every generated name: thorough tier covers every (L 100..255, domain length, codec) triple; legality/length/suffix checked by an independent label walker, extraction compared with payload[:reported]",
             "domains, payload contents and user slots are seeded samples per triple; login needs 31 Base32 chars and is judged as prefix-only when the name budget is smaller"),
-    "C09": (B, "4.9", "real server reply writer -> real client reply reader in one process, every payload length, prefix/monotonicity/floor oracle, ASan on exact-size buffers",
+    "C09": (B, "4.9", "real server reply writer -> real client reply reader in one process, every payload length, prefix/monotonicity/floor oracle plus a committed table of lengths known to fit each answer format, ASan on exact-size buffers",
             "held on every executed (query type, codec, name, buffer size, length, content) case: every length 2..4096 in the thorough tier",
             "payload contents are 5 styles; exact set judged per content style"),
     "C06": (A, "4.6", "ASan/UBSan inside the real iodine client + watchdog + tun-silence monitor, against a model server that turns hostile at a chosen handshake step, hostile tunnel-phase answers, and an on-path spoofer next to the real server",
@@ -44,7 +44,7 @@ CHECKS = {
     "C12": (B, "4.12", "differential monitor over receive-buffer residues: (B) same datagram + 6 different stale-buffer contents through the tree's dns_decode(); (A) whole-program runs of the real server and client under 6 residue policies of the simulated recv(), complete output traces compared",
             "held on every generated datagram (valid queries/answers of all 7 record types cut at every byte, pointers and label lengths reaching the datagram end, inflated RDLENGTH / TXT lengths) x 6 residues",
             "sanitizers cannot see this class (the 64 KB buffer is addressable); a read past the end that cannot change any output is not reported"),
-    "C13": (A, "4.13", "system() boundary monitor: every command the real client passes to system() is matched against a strict grammar while a model server feeds hostile login replies",
+    "C13": (A, "4.13", "system() boundary monitor: every command the real client passes to system() is matched against a strict grammar while a model server feeds hostile login replies; plus the tree's tun.c compiled for LINUX/FREEBSD/OPENBSD/NETBSD with system() replaced by a recorder and fed the same hostile corpus",
             "held on every executed login reply: four fields replaced individually and jointly by metacharacter strings, inet_addr-accepted non-dotted-quad forms, out-of-range numbers, fillers, random bytes; 7 query types x 5 downstream encodings",
             "Linux ifconfig command grammar of tun.c; the interface name is local, not peer-derived"),
     "C14": (A, "4.14", "boundary multiset monitor (answers consume received queries) + quiescent-point held-query bound",
@@ -53,16 +53,16 @@ CHECKS = {
     "C15": (A, "4.15", "independent downstream decoder over every data answer (size bound, fragment numbering, last flag vs offered frames)",
             "held on every executed history for F in {2..65535}; numbering/last-flag judged for packets of <=16 fragments, cache replays excluded",
             "trusts simnet/proto.py decoders (cross-validated by interoperating with the real server) and Python zlib"),
-    "C16": (A, "4.16", "differential monitor (same time-scripted session with and without re-delivered queries) + per-select() invariant on the users[] snapshot + answer-cache same-payload rule",
+    "C16": (A, "4.16", "differential monitor (same time-scripted session with and without re-delivered queries) + per-select() invariant on the users[] snapshot + answer-cache same-payload rule, also under injected sendto() failures",
             "held on every executed pair: server tun writes, packets delivered to the client and final transfer counters identical with and without re-deliveries; transfer counters unchanged across every iteration that handled only a re-delivered copy; identical repeats of the three most recently answered queries got the original payload",
             "re-deliveries are drawn from inside the documented windows; a case-changed copy of a query that is still held is a new query to the server by design and is judged by the invariant oracle only (DESIGN 9)"),
     "C17": (B, "4.17", "exhaustive small-alphabet enumeration against a label-splitting reference matcher, ASan on exact-size strings; plus a dispatch monitor on the real server (inside names answered by the tunnel server and never forwarded, outside names never answered, forwarded with -b)",
             "exhaustive for validation strings of length 0..7 and query names of length 0..8 over {a,A,b,-,.,*,0} against 16 domains; seeded random long names/domains; boundary lengths",
             "reference written from the property text; wildcard-matched label must be non-empty"),
-    "C18": (B, "4.18", "enumeration of (netmask, server position) with pool invariants, a reference lookup under a wrapped clock, and a session history (slots handed out, logged in, expired, recycled) through find_available_user()",
+    "C18": (B, "4.18", "enumeration of (netmask, server position) with pool invariants, a reference lookup under a wrapped clock (also stepped backwards), and a session history (slots handed out, logged in, expired, recycled) through find_available_user(); plus a boundary monitor on the real iodined: the addresses its login replies tell the clients vs its table vs where packets for those addresses go",
             "exhaustive over all host positions for /20../30 (quick) and /16../30 (thorough), boundary + sampled positions for /8../15; lookup compared with the reference 'live logged-in owner'",
             "behaviour at exactly 60 s of silence is not asserted"),
-    "C19": (B, "4.19", "differential test against an independent MD5 (Python hashlib) incl. bit-flip sensitivity; plus a wire-level monitor of the real client (login and every raw-login datagram, which raw-login reply it accepts) against a model server",
+    "C19": (B, "4.19", "differential test against an independent MD5 (Python hashlib) incl. bit-flip sensitivity; plus wire-level monitors of the real client (password from -P / environment / standard input; login and every raw-login datagram, which raw-login reply it accepts) against a model server and of the real server (sessions succeeding each other on a slot, repeated raw logins)",
             "held on all generated (password, challenge) cases: every length 0..40 x boundary challenges, random cases, single-bit sensitivity, insensitivity to bytes beyond 32 and to output-buffer contents",
             "hashlib MD5 is the oracle; wire-level use of challenge+1/-1 is observed in Engine A runs"),
     "C20": (A, "4.20", "socket-boundary monitor on iodined -b (forward rule, reply-routing rule against a reference window of the 16 most recent forwarded queries) + exhaustive put/get enumeration of the table in a unit driver that #includes fw_query.c",
